@@ -9,7 +9,8 @@ DRIVER = "resolver"
 ML_EXTRA = ("vmsg.ml",)
 COQ_TARGETS = ["Properties/C08.vo"]
 THEOREMS = ["C08_udp_exchange_cost_bounded", "C08_tcp_exchange_cost_bounded", "C08_charge_within_budget",
-            "C08_udp_exchange_time", "C08_tcp_exchange_time", "C08_query_nameserver_time"]
+            "C08_udp_exchange_time", "C08_tcp_exchange_time", "C08_query_nameserver_time",
+            "C08_recursive_terminates", "C08_forwarding_terminates", "C08_recursive_no_panic", "C08_forwarding_no_panic", "C08_answer_provenance_recursive", "C08_answer_provenance_forwarding", "C08_simple_cache_laws", "C08_real_cache_laws", "C08_answer_provenance_recursive_real_cache"]
 RULE = ("cases: every assignment of a fault from an alphabet of 10 (drop, delay 1.5 s, delay 7 s, garbage, truncation, wrong id, "
         "TC, SERVFAIL, refused, truncated-and-open TCP stream) to the first k <= 3 exchanges of a recursive resolution "
         "(1110 sequences, three base universes in rotation) and to the first k <= 2 of a forwarded one (110), plus random "
